@@ -620,6 +620,19 @@ pub fn run(args: &Args, rec: &mut Recorder) {
             ),
             Ok(Ok((m2, _))) => {
                 if m2 != m {
+                    // known shape: the include directive is written at the place of the first item of
+                    // the include file; if position-restricted items of a RECORD_LAYOUT are reordered
+                    // around it, RESERVED items of the include file and of the main file change their
+                    // relative order (the RESERVED list is the only ordered content of a RECORD_LAYOUT)
+                    let mut n1 = m.clone();
+                    let mut n2 = m2.clone();
+                    crate::c01::normalise_reserved(&mut n1);
+                    crate::c01::normalise_reserved(&mut n2);
+                    let suffix = if suffix.is_empty() && n1 == n2 {
+                        " only in the order of RESERVED items [include directive inside a RECORD_LAYOUT whose items are not in position order]"
+                    } else {
+                        suffix
+                    };
                     rec.violation(
                         &format!("model reloaded from the written file differs{suffix}"),
                         &format!("{}; written text: {}", crate::c01::model_diff(&m, &m2), clip(&written_text, 1500)),
